@@ -41,7 +41,8 @@ prop("C02", "exploration", "store-hook monitor: reference device re-validates al
      "not completed, plus ring slots of unfetched entries; index monotonicity and 'index store is the last store of a submission' are checked on the same event stream.",
      "Program order of stores is observed (opaque hook call = compiler barrier); the hardware fence itself is not observable on x86 nor under Miri (stated limit).",
      QRULE + "Here N <= 64 and every store-hook instant is an observation point (observed.hook_observations, hook_chain_validations).",
-     [stage("checked")], [stage("checked", scale=4000, timeout=2400), stage("miri", scale=1000, optional=True, timeout=3600)])
+     [stage("checked"), stage("miri-race", scale=1000, timeout=1800)],
+     [stage("checked", scale=4000, timeout=2400), stage("miri-race", scale=10000, timeout=3600), stage("miri", scale=1000, optional=True, timeout=3600)])
 
 prop("C03", "exploration", "lock-step sequential reference ring (executable model) compared on every API return value",
      "Return values of add/pop_used/peek_used/can_pop/available_desc are compared with a ~60-line sequential model of the ring; failed polls must leave ledger, device-visible memory and "
@@ -84,7 +85,7 @@ prop("C10", "exploration", "MMIO bus trace (safe-mmio custom-mmio backend) check
      "a case is (i) one MmioTransport (legacy or modern, direct or via SomeTransport, random device id / features) driven through 60 random Transport operations with random queue indices {0,1,7,0xffff,..}, sizes 2^0..2^15, 64-bit address triples with bits 31/32/63 forced, "
      "feature words, status and interrupt values, or (ii) one probe of a random header (magic/version/device id drawn from {correct, +-1, 0, all-ones, random, byte-swapped}) with region size in {0,4,0xfc,0xff,0x100,0x101,0x200,0x1000}. "
      "Non-trivial: at least one bus access or a refusal was observed (always). distinct: 64-bit key of (seed, case number) which determines all generated inputs; counts of checked operations per kind are in observed.op_*.",
-     [stage("checked", scale=8000)], [stage("checked", scale=5000), stage("release", scale=200)])
+     [stage("checked", scale=8000)], [stage("checked", scale=200000), stage("release", scale=20000)])
 
 prop("C12", "exploration", "reference PCI function model behind ConfigurationAccess logging every config read/write with the decode state; exhaustive CAM address enumeration",
      "bar_info/bars run against a PCI function model with per-BAR writable-bit masks, hard-wired type bits, 64-bit pairs and a command register with a write mask; the model flags any BAR write that changes the assigned value while the matching decode bit is set, "
@@ -94,7 +95,7 @@ prop("C12", "exploration", "reference PCI function model behind ConfigurationAcc
      "a case is (i) one PCI function with six generated BARs (unimplemented / mem32 / below-1MiB / mem64 up to 2^63 / I/O 32- and 16-bit decode / reserved type, 64-bit in slot 5) and an initial command value, probed with bar_info on every slot or with bars(); "
      "(ii) one capability list (0..12 entries) + one bus population (random subset of 256 functions with random identity fields); (iii) one MmioCam (CAM or ECAM) exercised with 64 register reads; (iv) one exhaustive cam_offset enumeration per mechanism. "
      "Non-trivial: always (a result or a refusal is compared). distinct: key of (kind, seed, case number), which determines the generated inputs.",
-     [stage("checked", scale=8000)], [stage("checked", scale=5000), stage("release", scale=200)])
+     [stage("checked", scale=8000)], [stage("checked", scale=200000), stage("release", scale=20000)])
 
 prop("C11", "exploration", "independent reference parser (128-bit arithmetic) over generated PCI configuration spaces + MMIO bus trace of every later access",
      "PciTransport::new runs on generated configuration spaces (through a model ConfigurationAccess and through the real MmioCam on the bus). An independent reference parser decides, in 128-bit arithmetic, which window each capability type must yield or that construction must fail; "
@@ -125,7 +126,7 @@ prop("C14", "exploration", "reference block device (sparse in-memory disk) parsi
      "a case is one VirtIOBlk instance (transport in {model, model-legacy, MMIO modern/legacy, SomeTransport(MMIO), PCI}; offered features: all 16 subsets of {RO, FLUSH, INDIRECT_DESC, EVENT_IDX} by case number plus random unsupported bits; capacity in {0,1,2048,2^32,2^32+5,2^64-1}; device notification policy serve-on-notify / polling+suppression / eager) driven through 300 (thorough 600) steps of "
      "read/write of 1..8 sectors at sectors incl. 0, 2^32, 2^63, flush, device_id, device statuses {OK, IOERR, UNSUPP, 3, 0xff}, non-blocking submissions (bursts up to queue-full), completions in random order with wrong-token probes, interrupt acknowledgement. "
      "Non-trivial iff at least 2 non-blocking requests were outstanding at once and at least one request completed with its data checked; distinct by hash of (configuration, operation list).",
-     [stage("checked", scale=8000)], [stage("checked", scale=5000), stage("asan", scale=150, optional=True)])
+     [stage("checked", scale=8000)], [stage("checked", scale=200000), stage("asan", scale=8000, optional=True)])
 
 prop("C15", "exploration", "reference console device feeding a position-coded byte stream; every byte returned by the public API identifies its stream position",
      "The real VirtIOConsole runs against a reference console whose receive stream is a function of the byte position, so any byte the API returns is checked against exactly the position it must have (loss, duplication and reordering all show as a mismatch); "
@@ -133,7 +134,7 @@ prop("C15", "exploration", "reference console device feeding a position-coded by
      DRV_NOTE + " Liveness of polling recv() alone after a bulk read is not part of the (safety) statement.",
      "a case is one VirtIOConsole (transport model / model-no-unset / MMIO modern / MMIO legacy / PCI; INDIRECT_DESC x EVENT_IDX by case number; device policy serve-on-notify / polling / eager) driven through 600 (thorough 2000) API calls drawn from recv(peek), recv(pop), read (sizes 0,1,..600,4096,5000), fill_buf+consume, read_ready, ack_interrupt, send, send_bytes, embedded_io::Write, "
      "with device chunks of 1..4096 bytes delivered at API boundaries, inside wait loops (spin hook) and inside the driver's used-index loads (dma hook). Non-trivial iff at least one received byte was checked; distinct by hash of (configuration, operation list).",
-     [stage("checked", scale=8000)], [stage("checked", scale=5000), stage("asan", scale=150, optional=True)])
+     [stage("checked", scale=8000)], [stage("checked", scale=200000), stage("asan", scale=8000, optional=True)])
 
 prop("C16", "exploration", "reference network device with uniquely numbered frames + receive-buffer ownership ledger (conservation check at every quiescent point)",
      "Both network drivers run against a reference NIC: every transmit chain is compared byte-wise with [zeroed header of the negotiated size][caller's frame] (raw transmit_begin: the caller's buffer verbatim); the device injects uniquely numbered frames of every length into posted buffers in arbitrary order and the driver's result is compared byte-wise; "
@@ -141,7 +142,7 @@ prop("C16", "exploration", "reference network device with uniquely numbered fram
      DRV_NOTE + " Buffer lengths respect the documented minimum (1526 bytes after rounding to whole words).",
      "a case is one driver instance (VirtIONet or VirtIONetRaw; QUEUE_SIZE in {2,4,16}; with/without VERSION_1 => 12/10-byte header; INDIRECT_DESC x EVENT_IDX; random unsupported offload bits offered; transport model / model-legacy / MMIO modern / MMIO legacy / PCI; buffer length 1528..65535) driven through 500 (thorough 2000) steps of "
      "frame injection bursts in arbitrary buffer order (frame length 0, 1, 1514, max, random), receive, recycle in arbitrary order, blocking send, raw receive_begin/poll/complete, receive_wait (device injects from the spin hook), raw transmit_begin/poll/complete. Non-trivial iff at least one received frame was compared; distinct by hash of (configuration, operation list).",
-     [stage("checked", scale=8000)], [stage("checked", scale=5000), stage("asan", scale=150, optional=True)])
+     [stage("checked", scale=8000)], [stage("checked", scale=200000), stage("asan", scale=8000, optional=True)])
 
 prop("C17", "exploration", "reference vsock peer holding both credit windows and both byte streams in 64-bit arithmetic; every transmitted header decoded",
      "The real VsockConnectionManager/VirtIOSocket run against a reference peer: every packet on the transmit queue is decoded and checked (addressing, length, stream type, buf_alloc = configured capacity, fwd_cnt = bytes the application has read, advertised free space never above real free space); "
@@ -150,7 +151,7 @@ prop("C17", "exploration", "reference vsock peer holding both credit windows and
      DRV_NOTE + " The peer's window may shrink, but never below what is still in flight after its own consumption. Situations the property leaves open (data before the response, request on an existing connection) are not generated.",
      "a case is one connection manager (per-connection capacity in {1,2,7,16,100,512,1024,4096,65536}; RX buffer 128/512 bytes; INDIRECT_DESC x EVENT_IDX; transports model/MMIO/PCI; device policy on-notify/polling/eager) driven through 600 (thorough 3000) steps of connect, listen, peer requests, sends of 1..4096 bytes, peer data within the advertised credit, recv of 0..2*capacity+1 bytes, "
      "peer credit updates with partial consumption and changed windows, credit requests, shutdown/reset, packets for unknown connections and malformed packets; plus case 0 = 4.5 GiB transmit-counter wrap run and (thorough) case 1 = 4.5 GiB receive/forward-counter wrap run on 64 KiB receive buffers. Non-trivial iff at least one packet was polled or stream byte checked; distinct by hash of (configuration, operation list, case).",
-     [stage("checked", scale=8000)], [stage("checked", scale=5000), stage("release", scale=100)])
+     [stage("checked", scale=8000)], [stage("checked", scale=200000), stage("release", scale=20000)])
 
 prop("C18", "exploration", "lock-step reference connection table + posted-receive-buffer count after every poll",
      "The same co-simulation with a state-focused workload: a reference table keyed by (peer cid, peer port, local port) predicts for every polled packet the event reported and the exact packets the driver must send (response on listening ports, reset and no event otherwise, nothing for unknown or foreign-cid tuples, credit update on credit request, reset when a shut-down connection is drained), "
@@ -158,7 +159,7 @@ prop("C18", "exploration", "lock-step reference connection table + posted-receiv
      DRV_NOTE + " Unspecified situations (request on an existing connection, reset with data buffered, data before the response) are not generated.",
      "a case is one connection manager with 4 peers x 4 local ports driven through 600 (thorough 3000) steps over all local operations (listen, unlisten, connect, send, recv, shutdown, force_close, update_credit) and all peer packet kinds incl. op 0, op > 7, control packets with data, truncated headers (used length < 44), length field > used length, wrong destination cid. "
      "Non-trivial iff at least one packet was polled; distinct by hash of (configuration, operation list, case).",
-     [stage("checked", scale=8000)], [stage("checked", scale=5000), stage("asan", scale=150, optional=True)])
+     [stage("checked", scale=8000)], [stage("checked", scale=200000), stage("asan", scale=8000, optional=True)])
 
 prop("C19", "exploration", "reference device completing posted buffers in arbitrary order with uniquely numbered events; completion-order FIFO compared with deliveries; posted-buffer census after every poll",
      "OwningQueue is exercised directly for SIZE in {1,2,8,32} x BUFFER_SIZE in {8,64,512}, and through VirtIOInput::pop_pending_event and VirtIOSound::latest_notification on model/MMIO/PCI transports (the socket receive queue is audited in C18): the reference device fills any posted buffer with a uniquely numbered event of any length 0..=BUFFER_SIZE, "
@@ -166,7 +167,7 @@ prop("C19", "exploration", "reference device completing posted buffers in arbitr
      DRV_NOTE + " Written lengths never exceed the buffer size here (oversized lengths are a C07 fault).",
      "a case is one stocked queue (12 OwningQueue instantiations x INDIRECT_DESC x EVENT_IDX, or one VirtIOInput / VirtIOSound instance on one of 3-4 transports) receiving >= 100 x SIZE events (3200 for input / sound) in bursts of 1..SIZE with the device choosing among posted buffers at random; sound notifications include unknown codes and short writes. "
      "Non-trivial iff at least one delivered event was compared; distinct by hash of (configuration, completion choices, case).",
-     [stage("checked", scale=4000)], [stage("checked", scale=4000), stage("asan", scale=150, optional=True), stage("miri", optional=True, timeout=7200)])
+     [stage("checked", scale=4000)], [stage("checked", scale=100000), stage("asan", scale=4000, optional=True), stage("miri", optional=True, timeout=7200)])
 
 prop("C20", "exploration", "five reference devices decoding every request chain against the specification's structure layouts; GPU resource table + DMA-ledger audit of attached backing; PCM stream reassembly",
      "GPU, sound, entropy, clock and 9P drivers run against reference devices that decode each chain (little-endian field positions per VirtIO 1.2/1.3 structure layouts), check command order (create -> attach -> set_scanout; transfer -> flush; set_params before xfer), and answer with the expected success type or with error codes, wrong success types and garbage - any of which must turn into an Err. "
@@ -176,7 +177,7 @@ prop("C20", "exploration", "five reference devices decoding every request chain 
      "a case is one driver instance of one of the five devices (transport model / model-no-unset / MMIO modern / MMIO legacy / PCI; INDIRECT_DESC x EVENT_IDX; device notification policy) driven through 40..60 operations with random parameters: entropy lengths 1..64 KiB with short deliveries; all three clock messages x statuses {0,1,2,3,4,5,6,0xff} x clock types/smearing/flags; "
      "9P requests with size field ==/!= used length and invalid buffer sizes; GPU resolution/framebuffer setup/change_resolution/flush/cursor setup+move with 1-in-8 unexpected responses, plus EDID cases of 400 random/structured 1024-byte blobs with size fields {0,127,128,129,256,1024,2^32-1}; sound set_params (valid/invalid), stream commands, jack remap, capability getters, blocking pcm_xfer of 1..40 periods (+ partial tail) and non-blocking batches. "
      "Non-trivial iff at least one request/response pair was checked; distinct by hash of (device, configuration, operation list, case).",
-     [stage("checked", scale=8000)], [stage("checked", scale=5000), stage("asan", scale=100, optional=True)])
+     [stage("checked", scale=8000)], [stage("checked", scale=200000), stage("asan", scale=8000, optional=True)])
 
 prop("C08", "exploration", "ordered transport-event log (model transport calls / decoded register writes of the real MMIO and PCI transports) checked by a handshake automaton; device-side feature gates",
      "Each of the eleven drivers is constructed on eight transport variants for every subset of its relevant feature bits; the ordered log of transport events must be reset -> ACKNOWLEDGE|DRIVER -> features read -> features written (subset of the offer, VERSION_1 accepted when offered, nothing outside the driver's implemented set) -> FEATURES_OK -> queue set-up -> DRIVER_OK with no notification before DRIVER_OK; "
@@ -205,6 +206,44 @@ prop("C07", "fault_enumeration", "hostile reference device (fault catalogue x ta
      [stage("checked"), stage("asan", timeout=1800)], [stage("checked"), stage("asan", timeout=3600), stage("miri", optional=True, timeout=7200), stage("valgrind", optional=True, shards=16, timeout=7200)],
      sanitizer_is_violation=True)
 
+# Observation thresholds (counter of the first, mandatory stage -> minimum).  A run below them is INCONCLUSIVE.
+MIN = {
+    "C01": {"chains_validated": 1_000_000, "descriptors_validated": 2_000_000, "cases_index_wrap": 10},
+    "C02": {"hook_observations": 500_000, "hook_chain_validations": 300_000, "miri-race:t_adds": 100},
+    "C03": {"pops_wrong_token": 100_000, "capacity_probes": 500, "cases_index_wrap": 10},
+    "C04": {"bytes_checked": 100_000_000, "adds_refused": 100_000},
+    "C05": {"eventidx_needed": 1_000_000, "sweep_passes_covering_all_65536_indices": 10, "blocking_requests_checked": 2000, "flagmode_instances": 10_000},
+    "C06": {"creations_checked": 768, "refusals_checked": 2304, "releases_audited": 768},
+    "C07": {"cases_driver_level": 300, "cases_raw_virtqueue": 200, "cases_owning_queue": 100, "cases_differential_scribble": 100, "asan:cases_driver_level": 300},
+    "C08": {"handshake_logs_checked": 5000, "chains_seen_by_device": 10_000},
+    "C09": {"cases_with_injected_allocation_failure": 500, "dma_deallocs_checked_against_liveness": 1000},
+    "C10": {"register_accesses_checked": 10_000_000, "probes_rejected": 100_000, "probes_accepted": 1000},
+    "C11": {"constructions_ok": 10_000, "constructions_refused": 10_000, "register_accesses_checked": 1_000_000},
+    "C12": {"cam_tuples_checked": 8_388_608, "bar_info_mem64": 100_000, "bus_populations_checked": 1000},
+    "C13": {"config_accesses_judged": 50_000, "torn_read_runs": 1000, "out_of_window_refusals_checked": 1000},
+    "C14": {"chains_parsed_by_reference_disk": 1_000_000, "nb_completions": 100_000},
+    "C15": {"bytes_received_and_checked": 100_000_000, "transmit_chains_checked": 100_000},
+    "C16": {"frames_received_and_compared": 100_000, "conservation_checks": 1_000_000},
+    "C17": {"tx_headers_checked": 100_000, "stream_bytes_read_and_checked": 1_000_000, "tx_counter_wraps": 1},
+    "C18": {"connection_table_audits": 100_000, "posted_buffer_audits": 100_000},
+    "C19": {"owning_events_delivered_and_compared": 100_000, "input_events_delivered_and_compared": 100_000, "sound_notifications_delivered_and_compared": 100_000},
+    "C20": {"responses_and_requests_checked": 100_000, "pcm_chunks_reassembled": 100_000, "gpu_edid_queries": 10_000},
+}
+
+def min_observed(pid, stages):
+    """Key names as ./check merges them: prefixed with the build flavour iff the tier has several stages."""
+    out = {}
+    multi = len(stages) > 1
+    first = stages[0]["build"]
+    for k, v in MIN.get(pid, {}).items():
+        if ":" in k:
+            b, c = k.split(":")
+            if any(st["build"] == b and not st.get("optional") for st in stages):
+                out["%s.%s" % (b, c) if multi else c] = v
+        else:
+            out["%s.%s" % (first, k) if multi else k] = v
+    return out
+
 NOT_YET = {}
 import re
 props = [json.loads(l) for l in open(os.path.join(ROOT, "properties.jsonl"))]
@@ -219,7 +258,8 @@ def main():
         d = P[pid]
         plan["properties"][pid] = {"level": d["level"], "rule": d["rule"], "assumptions": d["assumptions"],
                                    "stages": {"quick": d["quick"], "thorough": d["thorough"]},
-                                   "sanitizer_is_violation": d["sanitizer_is_violation"], "oom_subprocess": pid == "C07"}
+                                   "sanitizer_is_violation": d["sanitizer_is_violation"], "oom_subprocess": pid == "C07",
+                                   "min_observed": {"quick": min_observed(pid, d["quick"]), "thorough": min_observed(pid, d["thorough"])}}
         checks.append({
             "property_id": pid,
             "quick_cmd": "./check %s --tier quick" % pid,
